@@ -32,7 +32,9 @@ CHECKS = {
              text='For every successful behaviour that ends in a copy (depth <= 2 quick, <= 3 thorough, EscapeHTML on and off, sizes that depend '
                   'on escaping and compaction) the real patch is re-run with limit = total-1 (must fail with *AccumulatedCopySizeError, no '
                   'document), total, total+1, total+1000 (must succeed, same document), through the per-call option and the package default; '
-                  'fixed limits 7/12/20 are explored by TLC itself.'),
+                  'fixed limits 7/12/20 are explored by TLC itself. The accounting alone (CopyAcct.tla) is proved for ALL limits, sizes and '
+                  'patch lengths by Apalache (inductive invariant) and TLAPS (CopyAcctProof.tla), and TLC checks in every patch stage that '
+                  'the interpreter machine refines it (RefinesCopyAcct).'),
  'C13': dict(engine='patch', ref='6/C13', technique='TLC invariant SkipEquivalent (two-run equivalence) on Patch6902 + replay of both runs on the real code',
              text='TLC checks on the specification that the option-on run equals the option-off run of the patch minus the skipped removes, and '
                   'prints which removes were skipped; the replayer executes both runs on the real library and compares them with each other '
